@@ -168,6 +168,11 @@ def run(prog, tier) -> Result:
                 sym, d = c.num("k", "int"), NONE
             if kind == "symbol empty":
                 sym, d = StrV(""), NONE
+            if kind.startswith("symbol ") and kind.endswith(" with a definition"):
+                # an invalid symbol stays invalid whatever the definition is
+                u1 = c.unit("u1", "T1")
+                d = TermV(RF.atom(("k", "f")) * mu_of(c.st, u1), {"T1": (1, 0)}) if "term" in kind else c.qty("d", u1)
+                sym = StrV("") if "empty" in kind else (Num(RF.const(0), "int") if "zero" in kind else NONE)
             return I.call_function(nu, [c.cls("T1"), sym, StrV(None, "name"), d], {})
         return body
 
@@ -205,6 +210,9 @@ def run(prog, tier) -> Result:
     run_entry(prog, res, "R15.5", "QuantityMeta.new_unit", "definition is a number", nu_body("number"), reject(["TypeError"]))
     run_entry(prog, res, "R15.5", "QuantityMeta.new_unit", "symbol not str", nu_body("symbol not str"), reject(["TypeError"]))
     run_entry(prog, res, "R15.5", "QuantityMeta.new_unit", "symbol empty", nu_body("symbol empty"), reject(["ValueError"]))
+    for k_, exc_ in (("symbol empty, term with a definition", ["ValueError"]), ("symbol empty, quantity with a definition", ["ValueError"]),
+                     ("symbol zero, term with a definition", ["TypeError"])):
+        run_entry(prog, res, "R15.5", "QuantityMeta.new_unit", k_, nu_body(k_), reject(exc_))
 
     # ---- R15.5 derive_unit_from
     def du_body(kind):
